@@ -18,7 +18,9 @@ type singleRateLimitState struct {
 	spillover     int64
 	windowData    WindowData
 	windowEndTime time.Time
-	mutex         sync.Mutex
+	// the window size windowEndTime was computed with
+	countedWindowSize time.Duration
+	mutex             sync.Mutex
 }
 
 func newSingleRateLimitState(clock clock.Clock) *singleRateLimitState {
@@ -85,6 +87,15 @@ func (state *singleRateLimitState) ensureWindowIsUpdated() {
 		(elapsedTime / state.windowData.WindowSize) * state.windowData.WindowSize,
 	)
 	currentWindowEndTime := currentWindowStartTime.Add(state.windowData.WindowSize)
+
+	// The window size was changed (policies were re-applied) while a window is being counted:
+	// the requests counted so far stay counted until the aligned window of the new size ends,
+	// instead of until the end of a window of the old size.
+	if state.countedWindowSize != state.windowData.WindowSize &&
+		currentTime.Before(state.windowEndTime) {
+		state.windowEndTime = currentWindowEndTime
+	}
+	state.countedWindowSize = state.windowData.WindowSize
 
 	// We make sure that state's window is is correct accordingly
 	// a window covers [start, end): a request exactly on the boundary belongs to the new one
